@@ -262,7 +262,7 @@ PROPS = {
             "quick": lambda s: gen.fam_neg(s),
             "thorough": lambda s: gen.fam_neg(s) + gen.fam_data(s, 120)},
     "C08": {"level": "model_checking", "hang": True, "also": ["C09_SrvTunnelLevel"],
-            "quick": lambda s: gen.fam_ids(s, 64) + [x for x in gen.fam_hostile_srv(s) if "-new-" in x["name"] or "unknown-sid" in x["name"] or "-sid0" in x["name"] or "negative" in x["name"] or "disposed" in x["name"]],
+            "quick": lambda s: gen.fam_ids(s, 64) + [x for x in gen.fam_hostile_srv(s) if "-new-" in x["name"] or "unknown-sid" in x["name"] or "-sid0" in x["name"] or "negative" in x["name"] or "disposed" in x["name"] or "-shutdown" in x["name"]],
             "thorough": lambda s: gen.fam_ids(s, 600) + gen.fam_hostile_srv(s) + gen.fam_gates(s, 4, gates=["cli.alloc", "cli.new.sent", "car.sent.c2s.new"])},
     "C09": {"level": "model_checking", "hang": True,
             "quick": lambda s: gen.fam_hostile_srv(s) + gen.fam_hostile_cli(s),
